@@ -97,7 +97,7 @@ WRONG = {int: 'str!', str: 12345, float: 'f', list: (9,), dict: [1], tuple: [9],
 def gen_pat(rng, depth, ctx='any'):
     """ctx 'hash': must be usable inside a set pattern / as dict value anywhere is fine"""
     leafs = ['lit', 'lit', 'type', 'type', 'regex', 'pred', 'm', 'intand']
-    comps = ['list', 'list', 'tuple', 'dict', 'dict', 'set', 'fset', 'and', 'or', 'not']
+    comps = ['list', 'list', 'tuple', 'dict', 'dict', 'set', 'fset', 'and', 'or', 'not', 'anddict']
     if ctx == 'hash':
         k = rng.choice(['lit', 'type'])
     elif depth <= 0:
@@ -145,6 +145,14 @@ def gen_pat(rng, depth, ctx='any'):
             used.add(ident)
             entries.append((key, gen_pat(rng, depth - 1)))
         return ('dict', entries)
+    if k == 'anddict':
+        # every And child sees the TARGET (not the previous child's result): a dict pattern that fills in an Optional
+        # default, followed by a stricter dict pattern that does not know that key
+        name = rng.choice(['o', 'b'])
+        first = ('dict', [(('klit', 'a'), ('type', int)), (('kopt', name, rng.choice(['dflt', 0, None])), ('type', object))])
+        second = ('dict', [(('klit', 'a'), ('type', int))] + ([(('kreq', str), ('type', int))] if rng.random() < 0.3 else []))
+        kids = [first, second] if rng.random() < 0.7 else [first, second, ('type', dict)]
+        return ('and', kids)
     if k == 'and':
         return ('and', [gen_pat(rng, depth - 1) for _ in range(rng.randint(1, 3))])
     if k == 'or':
